@@ -380,6 +380,36 @@ func templateForkOrderProg(plan *Tape) *Prog {
 		top.Outs = append(top.Outs, Field{"both", Ty{Base: "RS", Dims: "a"}})
 		top.Ret = append(top.Ret, Bind{"both", ref("BOTH"), false})
 	}
+	if plan.Draw(3) == 0 {
+		// a pipeline map-called with two split arguments, inside a pipeline which is
+		// itself map-called over run-time keys: the per-fork _invocation of the inner
+		// pipeline records which arguments are split
+		pair := &PipelineDef{Name: "PAIRP", Ins: []Field{{"a", intT}, {"b", intT}, {"c", intT}, {"t", intT}}, Outs: []Field{{"y", intT}}}
+		pair.Calls = []*CallDef{{Callee: "USE", Id: "USE", Binds: []Bind{{"x", self("a"), false}, {"tag", lit("pair"), false}}},
+			{Callee: "USE", Id: "USE_B", Binds: []Bind{{"x", self("b"), false}, {"tag", lit("pairb"), false}}},
+			{Callee: "USE", Id: "USE_C", Binds: []Bind{{"x", self("c"), false}, {"tag", lit("pairc"), false}}},
+			{Callee: "USE", Id: "USE_T", Binds: []Bind{{"x", self("t"), false}, {"tag", lit("pairt"), false}}}}
+		pair.Ret = []Bind{{"y", ref("USE", "y"), false}}
+		ilits := func(vs ...int) *Expr {
+			var l []interface{}
+			for _, v := range vs {
+				l = append(l, int64(v))
+			}
+			return &Expr{Kind: ELit, Val: l, T: intT.ArrayOf()}
+		}
+		mid := &PipelineDef{Name: "MIDP", Ins: []Field{{"v", intT}, {"xs", intT.ArrayOf()}, {"zs", intT.ArrayOf()}}, Outs: []Field{{"ys", intT.ArrayOf()}}}
+		mid.Calls = []*CallDef{{Callee: "PAIRP", Id: "PAIRP", Mapped: true, Binds: []Bind{
+			{"a", self("xs"), true},
+			{"b", ilits(4, 5, 6), true},
+			{"c", self("zs"), true},
+			{"t", self("v"), false}}}}
+		mid.Ret = []Bind{{"ys", ref("PAIRP", "y"), false}}
+		p.Pipelines = append(p.Pipelines, pair, mid)
+		top.Calls = append(top.Calls, &CallDef{Callee: "MIDP", Id: "MIDP", Mapped: true, Binds: []Bind{
+			{"v", ref("MAKE", "nums"), true}, {"xs", ilits(7, 8, 9), false}, {"zs", ilits(1, 2, 3), false}}})
+		top.Outs = append(top.Outs, Field{"mid", Ty{Base: "int", Dims: "ma"}})
+		top.Ret = append(top.Ret, Bind{"mid", ref("MIDP", "ys"), false})
+	}
 	p.Pipelines = append(p.Pipelines, top)
 	p.Top = &CallDef{Callee: "TOPF", Id: "TOPF", Binds: []Bind{{"n", &Expr{Kind: ELit, Val: int64(2 + plan.Draw(7)), T: intT}, false}}}
 	return p
